@@ -103,4 +103,8 @@ var Registry = map[string]func(c *Ctx, arg string) error{
 		RunLazy(c)
 		return nil
 	},
+	"world": func(c *Ctx, arg string) error {
+		RunWorld(c)
+		return nil
+	},
 }
